@@ -57,6 +57,9 @@ type checker struct {
 	dev  []string
 	hex  []byte
 	spec *Spec
+	// the driver copier made for the previous profile of this run, and that profile
+	prevCopier func() *profile.Profile
+	prevSnap   *Spec
 }
 
 func (k *checker) witness(s *Spec) W {
@@ -254,6 +257,13 @@ func (k *checker) roundTrip(p *profile.Profile, m mode) {
 					k.fail("driver-copier/"+cat, s0, "copy %d from the driver's profile copier differs: %s", i, det)
 				}
 			}
+			// a copier made earlier in this process (for another profile) still hands out its own profile
+			if k.prevCopier != nil {
+				if cat, det := Diff(k.prevSnap, Snapshot(k.prevCopier()).Normalize()); cat != "" {
+					k.fail("driver-copier/earlier-copier/"+cat, s0, "after a copier for this profile was made, the copier made before it for another profile hands out something else: %s", det)
+				}
+			}
+			k.prevCopier, k.prevSnap = nc, n0
 		})
 	}
 }
